@@ -276,6 +276,20 @@ m('C19', 'io/file.py', '            def on_completed():\n                if type
 m('C19', 'io/file.py', '                if type(file) is str:\n                    f.close()\n                observer.on_completed()', '                observer.on_completed()\n                if type(file) is str:\n                    f.close()', 'fire', ['FR-3', 'FH-1'], 'hand mutant: closed after completion')
 m("C19", "container/json.py", "        'gzip': rs.compression.z.decompress,\n        'zstd': rs.compression.zstd.decompress,", "        'gzip': rs.compression.zstd.decompress,\n        'zstd': rs.compression.z.decompress,", "fire", ["AG-7"])
 m("C19", "container/json.py", "                rs.data.decode(encoding),\n                line.unframe(),\n                load(skip=skip, ignore_error=ignore_error),\n        )\n    else:", "                line.unframe(),\n                rs.data.decode(encoding),\n                load(skip=skip, ignore_error=ignore_error),\n        )\n    else:", "fire", ["AG-7"])
+# ---------------------------------------------------------------- round l / mutation round 5 (language-level traps)
+m('C06', 'data/split.py', "    pipeline = rx.pipe(*pipeline) if type(pipeline) is list else pipeline\n", "    if type(pipeline) is list:\n        pipeline.reverse()\n    pipeline = rx.pipe(*pipeline) if type(pipeline) is list else pipeline\n", 'fire', ['ARG-1'], "the caller's stage list reversed in place")
+m('C06', 'data/split.py', "    pipeline = rx.pipe(*pipeline) if type(pipeline) is list else pipeline\n", "    if type(pipeline) is list:\n        pipeline = list(reversed(pipeline))\n        pipeline.reverse()\n    pipeline = rx.pipe(*pipeline) if type(pipeline) is list else pipeline\n", 'silent', [], "a copy is the factory's own: mutating it is not ARG-1's business")
+m('C10', 'data/pad.py', "    return pad_start_mux(size, value)\n", "    if value is not None:\n        return rs.ops.start_with(iter([value] * size))\n    return pad_start_mux(size, value)\n", 'fire', ['GEN-1'], 'seed C10l in short: a one-shot iterator handed to start_with')
+m('C10', 'data/pad.py', "    return pad_start_mux(size, value)\n", "    if value is not None:\n        return rs.ops.start_with([value] * size)\n    return pad_start_mux(size, value)\n", 'silent', [], 'a list can be walked once per key')
+m('C10', 'operators/first.py', "            return ops.first()(source)", "            return ops.first()(rx.empty())", 'fire', ['AG-1'], 'mutation round 5: the plain arm does not work on its source')
+m('C09', 'operators/scan.py', "                    if has_state is False:\n                        value = seed() if callable(seed) else copy.deepcopy(seed)\n                    observer.on_next(value)", "                    if has_state is False:\n                        value = copy.deepcopy(seed)\n                    observer.on_next(value)", 'fire', ['SD-1'], 'mutation round 5: a seed factory copied instead of called (no callable test on the path)')
+m('C07', 'data/time_split.py', "        if active_timeout is not None and new >= start + active_timeout:", "        if active_timeout is not None and (new - start).seconds >= active_timeout.seconds:", 'fire', ['DUR-1'], 'durations ordered by one field of the normalised triple')
+m('C19', 'container/json.py', "                    line = line.decode()\n", "                    line = line.decode('utf-8', 'replace')\n", 'fire', ['CD-2'], 'lossy error scheme on the way of the data')
+m('C19', 'container/json.py', "                    line = line.decode()\n", "                    line = line.decode('utf-8', 'strict')\n", 'silent', [], 'the default scheme spelled out')
+m('C18', 'io/file.py', "                    read_data(file)\n", "                    read_data(open_obj)\n", 'fire', ['FR-3'], 'mutation round 5: the file-object arm reads something else than the object given')
+m('C20', 'container/parquet.py', "                        _load_file(filename)\n", "                        _load_file(open_obj)\n", 'fire', ['PU-2'], 'mutation round 5: the file-object arm opens the reader on something else')
+m('C13', 'operators/scan.py', "                    observer.on_next(i)\n                    i.store.del_key(state, i.key)\n                elif type(i) is rs.state.ProbeStateTopology:", "                    observer.on_next(i)\n                    i.store.del_key(None, i.key)\n                elif type(i) is rs.state.ProbeStateTopology:", 'fire', ['ST-8'], 'mutation round 5: a store call of the error arm names no state')
+m('C08', 'operators/tee_map.py', "                observer.on_error,\n                functools.partial(done, i),", "                None,\n                functools.partial(done, i),", 'fire', ['SUB-3'], 'mutation round 5: a None handler is no handler')
 # ---------------------------------------------------------------- C20
 m('C20', 'container/parquet.py', "pa.array(columns_data[i], type=columns_type[i])", "pa.array(columns_data[i], type=columns_type[i], from_pandas=True)", 'fire', ['PU-2'], 'seed C20g in short: NaN stored as null')
 m('C20', 'container/parquet.py', "pa.array(columns_data[i], type=columns_type[i])", "pa.array(columns_data[i])", 'silent', [], 'type left to inference: from_arrays(schema=...) casts (checked against pyarrow)')
